@@ -45,6 +45,10 @@ func (f *FA) relSpan(v ssa.Value) (root ssa.Value, lo, hi LF, hiOpen bool) {
 			lo = base.add(f.LFOf(s.Low), 1)
 		}
 	}
+	// b[x:len(b)] is b[x:]
+	if !hiOpen && hi.key() == f.SliceLen(root).key() {
+		hiOpen = true
+	}
 	return
 }
 
